@@ -530,6 +530,36 @@ func c07(c *Ctx) {
 				flows = true
 			}
 		}
+		// … whether or not the claim already has one: the copy is not reserved for a claim without a revision
+		for _, st := range methodCallOn(fn, "claim.Unstructured).SetCompositionRevisionReference", cm) {
+			if !flow.Default.Any(cfgx.CallArgs(st)[0], func(v ssa.Value) bool {
+				return hasSuffixCall(v, "composite.Unstructured).GetCompositionRevisionReference")
+			}) {
+				continue
+			}
+			var hasOne []cfgx.Edge
+			for _, b := range fn.Blocks {
+				for _, in := range b.Instrs {
+					bo, ok := in.(*ssa.BinOp)
+					if !ok || !isEqOrNeq(bo) {
+						continue
+					}
+					for _, pr := range [][2]ssa.Value{{bo.X, bo.Y}, {bo.Y, bo.X}} {
+						ci, isCall := pr[0].(*ssa.Call)
+						if isCall && cfgx.IsNilConst(pr[1]) && strings.HasSuffix(cfgx.CalleeName(ci), "claim.Unstructured).GetCompositionRevisionReference") && flow.Root(underIface(cfgx.Receiver(ci))) == cm {
+							eq, ne := eqEdges(bo)
+							_ = eq
+							hasOne = append(hasOne, ne...)
+						}
+					}
+				}
+			}
+			if len(hasOne) == 0 {
+				continue
+			}
+			reach, _ := cfgx.ReachableFromEdges(hasOne, st, cfgx.BackEdges(fn), nil)
+			c.R.Check(reach, site(st)+" also when the claim has a revision", c.pos(st.Pos()), "the XR's revision is written to the claim also when the claim already has one", "the XR's revision reaches the claim only when the claim has none: under Automatic the claim keeps the first revision it saw")
+		}
 		c.R.Check(flows, load.FuncName(fn)+": revision follows the XR under Automatic", c.pos(fn.Pos()), "cm.SetCompositionRevisionReference(xr.GetCompositionRevisionReference())", "the XR's composition revision is never written to the claim: under the Automatic policy the claim keeps the first revision it saw")
 		// what flows back is written: after an XR-owned value was put on the claim, no
 		// success return is reached without a client.Update of the claim
@@ -584,7 +614,18 @@ func c07(c *Ctx) {
 						continue
 					}
 					if !cfgx.CrossesAfter(m, r, gates) {
-						bad = c.pos(r.Pos())
+						// plain reachability sees the error temporaries of inlined stages as open paths: ask path-sensitively
+						if okp, _ := cfgx.MustCross(r, gates, nil); !okp || len(gates) == 0 {
+							// … and whether the paths around the write hand back an error (the result temporary of a failed stage)
+							for _, x := range cfgx.ErrorReturnsFrom(entryEdges(fn), gates) {
+								if x.At == r && !x.NonNil {
+									bad = c.pos(r.Pos())
+								}
+							}
+							if len(gates) == 0 {
+								bad = c.pos(r.Pos())
+							}
+						}
 					}
 				}
 				c.R.Check(bad == "", site(m)+" persisted", c.pos(m.Pos()), "after this XR-owned value was put on the claim every success return lies behind a successful client.Update of the claim", "the value put on the claim here can be dropped: the return at "+bad+" is reachable without a client.Update of the claim (status updates do not persist metadata or spec)")
